@@ -447,6 +447,28 @@ pub fn atomic() {
         ops.push(("write 5000".into(), Box::new(move |s| { let _ = s.write(&b3); })));
         ops.push(("set_len 70000".into(), Box::new(|s| { let _ = s.set_len(70_000); })));
         ops.push(("flush".into(), Box::new(|s| { let _ = s.flush(); })));
+        // a non-empty stream in the mini stream whose buffer is written back across the 4096-byte cutoff in one go
+        // (the migration to a regular chain and the write are one critical section): by flush, by set_len, by a
+        // window switch of a read, by a seek out of the window, by drop-like flush after a small-buffer overflow
+        ops.push(("set_len 1000".into(), Box::new(|s| { let _ = s.set_len(1000); })));
+        ops.push(("seek 0".into(), Box::new(|s| { let _ = s.seek(SeekFrom::Start(0)); })));
+        let b4 = big[..5000].to_vec();
+        ops.push(("write 5000 over a 1000-byte mini stream".into(), Box::new(move |s| { let _ = s.write(&b4); })));
+        ops.push(("flush across the cutoff".into(), Box::new(|s| { let _ = s.flush(); })));
+        ops.push(("set_len 100".into(), Box::new(|s| { let _ = s.set_len(100); })));
+        ops.push(("seek 50".into(), Box::new(|s| { let _ = s.seek(SeekFrom::Start(50)); })));
+        let b5 = big[..6000].to_vec();
+        ops.push(("write 6000 at 50 of a 100-byte mini stream".into(), Box::new(move |s| { let _ = s.write(&b5); })));
+        ops.push(("set_len 7000 (writes back across the cutoff)".into(), Box::new(|s| { let _ = s.set_len(7000); })));
+        ops.push(("set_len 4095".into(), Box::new(|s| { let _ = s.set_len(4095); })));
+        ops.push(("seek 4000".into(), Box::new(|s| { let _ = s.seek(SeekFrom::Start(4000)); })));
+        let b6 = big[..200].to_vec();
+        ops.push(("write 200 at 4000 of a 4095-byte mini stream".into(), Box::new(move |s| { let _ = s.write(&b6); })));
+        ops.push(("seek 0 (writes back across the cutoff)".into(), Box::new(|s| { let _ = s.seek(SeekFrom::Start(0)); })));
+        ops.push(("set_len 4095".into(), Box::new(|s| { let _ = s.set_len(4095); })));
+        ops.push(("seek end".into(), Box::new(|s| { let _ = s.seek(SeekFrom::End(0)); })));
+        ops.push(("write 1 at the end of a 4095-byte mini stream".into(), Box::new(|s| { let _ = s.write(&[9u8]); })));
+        ops.push(("flush across the cutoff".into(), Box::new(|s| { let _ = s.flush(); })));
         for (name, f) in ops.iter_mut() {
             let l0 = comp.entry("/obs").map(|e| e.len()).unwrap_or(u64::MAX);
             let h0 = st.len();
